@@ -77,6 +77,10 @@ CHECKS = {
             "Reference-model monitor: a simulated controller log (unique increasing timestamps, up to 64 deep) drives the real FaultLog inside a real Evohome of a real Gateway through the dispatcher with real I|0418 / RP|0418 packets built as text; after every step the public views are compared with the model (strictly newest-first, no entry at two positions, no invented/altered entry, views never raise; equality with the controller's log after an uninterrupted read-through; push-down by one on an unsolicited announcement). A second part runs the real get_faultlog() of a port gateway against the simulated controller (start/limit variations, null-entry replies).",
             "Equality is demanded only after a read-through with nothing changing meanwhile; RP null entries carry no index (documented), so feed-only read-throughs end at the last real entry; one recorded finding (gap-absorbing announcement, pinned by the repo's own test).",
             "reference-model (history + executable model) monitor on the real FaultLog / get_faultlog", "§3 C19"),
+    "C20": ("fault_enumeration",
+            "Handshake-outcome monitor on both ends: two real port Gateways (a faked supplicant, a faked respondent) on one virtual air under a virtual clock, for the five supported pairing flows (RND->CTL, DHW->CTL, CO2->FAN itho, REM->FAN nuaire, DIS->FAN orcon; with and without the 10E0 addenda). A per-phase delivery script decides how the peer hears each handshake frame (lost once / always, 1-3 copies in one read or apart, delayed 0.5-6 s around the 3 s / 5 s / 5.1 s waits, order preserved) and neighbours' offers / accepts / confirms / 10E0s are mixed in; either side may start first. Judged: with every frame delivered in time both ends return the same offer/accept/confirm(/addenda) packets; every attempt ends within the sum of its waits with the tuple or a BindingError (no other exception class, nothing in the loop's exception handler); afterwards neither device is binding and a fresh attempt on a clean air succeeds with identical packets.",
+            "A respondent in pairing mode takes the first offer it hears (protocol), so a neighbour's offer is put on the air only after ours has reached the peer; the respondent class is made fakeable as the repository's tests do it.",
+            "client-boundary history on both ends + retry/aftermath probe + loop-exception monitor under a per-phase delivery script on a virtual clock", "§3 C20"),
 }
 NOT_APPLICABLE = []
 
